@@ -8,6 +8,8 @@ CONSTANTS
   MaxSteps = 22
   MaxClears = 1
   MaxGCs = 2
+  FillFirst = 0
+  RemovableTo = 0
   ExportHist = TRUE
 INVARIANTS Refines Export
 CHECK_DEADLOCK FALSE
